@@ -22,6 +22,15 @@ func VerifC05Identity() {
 		maxL = 6
 	}
 	nd.Bound("C05.identity_bytes", maxL)
+	if nd.Choice(2) == 1 {
+		// invisible characters are text like any other: a byte order mark, zero-width characters, a soft
+		// hyphen, control characters — at the very start of the source, before an object, at the end
+		inv := []string{"\ufeff", "\u200b", "\u200c\u200d", "\u00ad", "\u2060", "\x00", "\x7f"}[nd.Choice(7)]
+		out, err := vRender(inv+"plain"+inv+"{{ 1 }}"+inv, Bindings{})
+		nd.Assert(err == nil && out == inv+"plain"+inv+"1"+inv, "invisible-characters-are-text")
+		nd.Reach("C05.identity")
+		return
+	}
 	data := c05Ascii(nd.Choice(maxL + 1))
 	for i := 0; i+1 < len(data); i++ {
 		nd.Assume(!(data[i] == '{' && (data[i+1] == '{' || data[i+1] == '%')))
